@@ -34,12 +34,17 @@ package processor
 // state at the head of the iteration, delta the entry's age read in this iteration.
 //@ pred exhausted(s *vaaState) = (s.ourMsg != nil && s.retryCount >= 14400) || (s.ourMsg == nil && s.retryCount >= 10)
 //@ func (p *Processor) handleCleanup(ctx context.Context)
-//@   props C14
-//@   requires p != nil && p.state != nil && p.state.vaaSignatures != nil && p.db != nil
-//@   requires forall h in dom(p.state.vaaSignatures) :: p.state.vaaSignatures[h] != nil && (p.state.vaaSignatures[h].ourMsg != nil ==> p.state.vaaSignatures[h].ourVAA != nil)
+//@   props C14 C13
+//@   requires Inv(p)
+//@   ensures [inv-shape] InvShape(p)
+//@   ensures [inv-store] InvStore(p)
+//@   ensures [processor-fields] unchanged("Processor.*")
 //@   modifies *
+//@   nopanic C13
+//@   replay processor_history_cleanup_nogs.go.tmpl
 //@   loop [range p.state.vaaSignatures]:
-//@     invariant [entries] forall h in dom(p.state.vaaSignatures) :: p.state.vaaSignatures[h] != nil && (p.state.vaaSignatures[h].ourMsg != nil ==> p.state.vaaSignatures[h].ourVAA != nil)
+//@     invariant [inv] Inv(p)
+//@     invariant [processor-fields] unchanged("Processor.*")
 //@     invariant [self] p.state == atEntry(p.state) && p.state.vaaSignatures == atEntry(p.state.vaaSignatures) && p.db == atEntry(p.db)
 //@     iter-ensures [removed-only-if] !indom(p.state.vaaSignatures, hash) ==>
 //@       |    (!old(s.submitted) && old(s.ourVAA) != nil && delta > 30000000000 && stored(p.db, db.idOf(old(s.ourVAA))))
@@ -60,3 +65,93 @@ package processor
 //@     iter-ensures [drop-unobserved-when-due] old(s.settled) && !old(s.submitted) && old(s.ourMsg) == nil && delta >= 300000000000 && old(ghostNow()) - tns(old(s.lastRetry)) >= 300000000000 ==> !indom(p.state.vaaSignatures, hash)
 //@     iter-ensures [other-entries-kept] mapUnchangedExcept(p.state.vaaSignatures, hash)
 //@     iter-ensures [other-entries-untouched] unchangedExcept("vaaState.*", s)
+
+// ---------------------------------------------------------------- representation invariant of the processor
+
+// wfGS: a guardian set as it arrives from chain: at most 255 keys (one-byte index on the wire).
+//@ pred wfGS(gs *common.GuardianSet) = len(gs.Keys) <= 255
+// wfEntry: an aggregation entry is an allocated object with a signature map; every recorded
+// signature is 65 bytes; an entry with our own message has our own VAA.
+//@ pred wfEntry(s *vaaState) = s != nil && allocated(s) && s.signatures != nil && allocated(s.signatures)
+//@   | && (forall a in dom(s.signatures) :: len(s.signatures[a]) == 65)
+//@   | && (s.ourMsg != nil ==> s.ourVAA != nil)
+//@   | && (s.gs != nil ==> wfGS(s.gs))
+//@ pred InvShape(p *Processor) = p != nil && p.state != nil && allocated(p.state) && p.state.vaaSignatures != nil && allocated(p.state.vaaSignatures) && p.db != nil
+//@   | && (forall h in dom(p.state.vaaSignatures) :: wfEntry(p.state.vaaSignatures[h]))
+//@   | && (forall h1 in dom(p.state.vaaSignatures) :: forall h2 in dom(p.state.vaaSignatures) :: h1 != h2 ==> p.state.vaaSignatures[h1] != p.state.vaaSignatures[h2] && p.state.vaaSignatures[h1].signatures != p.state.vaaSignatures[h2].signatures)
+//@   | && (p.gs != nil ==> wfGS(p.gs)) && (p.notifier != nil ==> p.gst != nil)
+//@   | && (p.gs == nil ==> (forall h in dom(p.state.vaaSignatures) :: p.state.vaaSignatures[h].ourMsg != nil))
+// InvStore: everything in the local store can be decoded again (handleMessage relies on it)
+//@ pred InvStore(p *Processor) = forall id vaa.VAAID :: stored(p.db, id) ==> vaa.accepts(storedBytes(p.db, id))
+//@ pred Inv(p *Processor) = InvShape(p) && InvStore(p)
+
+// ---------------------------------------------------------------- no-panic sweep over the handlers (C13)
+
+//@ func (p *Processor) broadcastSignedVAA(v *vaa.VAA)
+//@   props C13 C01
+//@   requires p != nil && vaa.wfVAA(v) && len(v.Signatures) <= 255
+//@   ensures [sent-once] nsent(p.sendC) == old(nsent(p.sendC)) + 1
+//@   modifies chan:[]byte, fresh lib:bytes.Buffer.b
+//@   nopanic C13
+
+//@ func (p *Processor) handleObservation(ctx context.Context, m *gossipv1.SignedObservation)
+//@   props C13
+//@   requires Inv(p) && m != nil
+//@   ensures [inv-shape] InvShape(p)
+//@   ensures [inv-store] InvStore(p)
+//@   ensures [processor-fields] unchanged("Processor.*")
+//@   modifies *
+//@   nopanic C13
+//@   replay processor_history_emptypayload.go.tmpl
+//@   at [p.broadcastSignedVAA(signed)]: use vaa.encoding_accepted(storedBytes(p.db, db.idOf(signed)), signed)
+//@   loop [range gs.Keys]:
+//@     invariant [agg-len] len(agg) == len(gs.Keys)
+//@     invariant [sigs] len(sigs) <= $i && (forall k in 0..len(sigs) :: sigs[k] != nil)
+
+//@ func (p *Processor) broadcastSignature(v *vaa.VAA, signature []byte, txhash []byte)
+//@   props C13
+//@   requires Inv(p) && v != nil
+//@   ensures [inv-shape] InvShape(p)
+//@   ensures [inv-store] InvStore(p)
+//@   ensures [processor-fields] unchanged("Processor.*")
+//@   modifies *
+//@   nopanic C13
+
+//@ func (p *Processor) handleMessage(ctx context.Context, k *common.MessagePublication)
+//@   props C13
+//@   requires Inv(p) && k != nil
+//@   ensures [inv-shape] InvShape(p)
+//@   ensures [inv-store] InvStore(p)
+//@   ensures [processor-fields] unchanged("Processor.*")
+//@   modifies *
+//@   nopanic C13
+
+//@ func (p *Processor) handleInjection(ctx context.Context, v *vaa.VAA)
+//@   props C13
+//@   requires Inv(p) && v != nil
+//@   ensures [inv-shape] InvShape(p)
+//@   ensures [inv-store] InvStore(p)
+//@   ensures [processor-fields] unchanged("Processor.*")
+//@   modifies *
+//@   nopanic C13
+
+//@ func (p *Processor) handleInboundSignedVAAWithQuorum(ctx context.Context, m *gossipv1.SignedVAAWithQuorum)
+//@   props C13
+//@   requires Inv(p) && m != nil
+//@   ensures [inv-shape] InvShape(p)
+//@   ensures [inv-store] InvStore(p)
+//@   ensures [processor-fields] unchanged("Processor.*")
+//@   modifies *
+//@   nopanic C13
+
+// Run: the processor is one goroutine; "for every interleaving of messages, observations,
+// guardian-set updates, injections and ticks" is "Inv is preserved by every handler from
+// every state satisfying it, under nondeterministic choice of the next event".
+//@ func (p *Processor) Run(ctx context.Context) (err error)
+//@   props C13
+//@   requires Inv(p) && p.gst != nil
+//@   modifies *
+//@   nopanic C13
+//@   at [p.gs = <-p.setC]: assume-env [set-from-chain] wfGS(p.gs)
+//@   loop [for]:
+//@     invariant [inv] Inv(p) && p.gst != nil && p.cleanup != nil
